@@ -27,3 +27,43 @@ Proof.
     | exact tbl_src_nada_dsl_to_nada_mir | exact tbl_src_add_input_to_map ].
 Qed.
 Print Assumptions C08_tables.
+
+(* ---- source tables (source_files / source_refs of the MIR) *)
+From NadaV.Gen Require GenSourceRef.
+From NadaV.Model Require Import SourceRef.
+From NadaV.Proofs Require Import C08Proofs.
+Open Scope list_scope.
+
+(* what the code does, re-extracted on every run: the compilation starts by resetting the reference index
+   (REFS, index_map, next_index), get_sources() keeps only files the indexed references point into, and the
+   text cache is validated by path *)
+Theorem C08_source_tables_reset :
+  smem "SourceRef.reset_refs" GenFrontend.cleared
+  && forallb (fun x => smem x GenSourceRef.sr_reset_clears) ["REFS"; "index_map"; "next_index"]
+  && GenSourceRef.sr_sources_filtered && GenSourceRef.sr_cache_checks_path = true.
+Proof. vm_compute. reflexivity. Qed.
+Print Assumptions C08_source_tables_reset.
+
+(* for EVERY earlier state of the process and every sequence of tracing / indexing steps of the current
+   compilation: only references indexed since the compilation started are emitted *)
+Theorem C08_references_fresh : forall by_path s0 ops x,
+  ~ In OCompileStart ops ->
+  In x (emit_refs (fold_left (tstep true by_path) ops (tstep true by_path s0 OCompileStart))) -> In (OIndex x) ops.
+Proof. exact refs_fresh. Qed.
+Print Assumptions C08_references_fresh.
+
+(* the text held (and emitted) for a file name is what a step of this run read from disk; an earlier entry
+   survives only if every access to that name in the run was to the very same path *)
+Theorem C08_file_texts_fresh : forall resets s0 ops base p d,
+  held (fold_left (tstep resets true) ops s0) base = Some (p, d) ->
+  In (OTouch p base d) ops
+  \/ (held s0 base = Some (p, d) /\ forall p1 d1, In (OTouch p1 base d1) ops -> p1 = p).
+Proof. exact files_fresh. Qed.
+Print Assumptions C08_file_texts_fresh.
+
+(* every emitted file is one some emitted reference points into *)
+Theorem C08_files_are_referenced : forall s base text,
+  In (base, text) (emit_files true s) ->
+  (exists r, In r (t_refs s) /\ s_file r = base) /\ exists e, In e (t_cache s) /\ c_base e = base /\ c_text e = text.
+Proof. exact emit_files_held. Qed.
+Print Assumptions C08_files_are_referenced.
